@@ -100,6 +100,8 @@ structure Cfg where
   maxQ : Nat := Gen.C05.maxMsgQueueSize
   resumeQ : Nat := Gen.C05.msgQueueResumeSize
   readBuf : Nat := Gen.C05.readBufsize
+  /-- time units per second (the harness uses 1024 so that the code's float arithmetic is exact) -/
+  ups : Nat := 1024
 deriving Repr
 
 inductive Waiter | none | pending | resolved | cancelled
@@ -392,9 +394,10 @@ def handleError (s : St) (c : Cur) (status : Nat) : St :=
   if c.outStarted then finishH s .connErr   -- "Response is sent already" → ConnectionError
   else finishFresh s c status false
 
-def ceilDeadline (now delay : Nat) : Nat :=
+/-- `ceil_timeout(delay)`: deadlines further away than the threshold are rounded up to a whole second -/
+def ceilDeadline (ups now delay : Nat) : Nat :=
   let w := now + delay
-  if delay > Gen.C05.ceilThresholdMs then (w + 999) / 1000 * 1000 else w
+  if delay > Gen.C05.ceilThresholdS * ups then (w + (ups - 1)) / ups * ups else w
 
 /-- run the handler program until it parks or the task finishes -/
 def runProg : Nat → St → Prog → St
@@ -465,6 +468,7 @@ def handlerStart (fuel : Nat) (s : St) (m : QMsg) : St :=
 
 inductive SCont where
   | top
+  | pop                      -- `message, payload = self._messages.popleft()` (also right after the waiter fired)
   | afterHandler (r : HRes)
   | linger (endT : Nat)
   | afterLinger
@@ -480,6 +484,10 @@ def startRun : Nat → St → SCont → St
       if s.forceClose then startRun fuel s .epilogue else
       match s.messages with
       | [] => { s with waiter := .pending, spc := .waitMsg }
+      | _ :: _ => startRun fuel s .pop
+    | .pop =>
+      match s.messages with
+      | [] => { s with spc := .done }     -- IndexError (unreachable: the waiter fires only after an append)
       | m :: rest =>
         let s := { s with messages := rest }
         let s := if s.parserPresent then { s with inFlight := s.inFlight - 1 } else s
@@ -520,7 +528,7 @@ def startRun : Nat → St → SCont → St
             let s := setP s c.idx { p with waiter := .start }
             let s := match s.lingerTimer with
               | some _ => s
-              | none => { s with lingerTimer := some (ceilDeadline s.now (endT - s.now), s.seq), seq := s.seq + 1 }
+              | none => { s with lingerTimer := some (ceilDeadline s.cfg.ups s.now (endT - s.now), s.seq), seq := s.seq + 1 }
             { s with spc := .linger endT }
         else startRun fuel (cancelLinger s) .afterLinger
     | .afterLinger =>
@@ -561,7 +569,7 @@ def runCb (s : St) (c : Cb) : St :=
     match s.spc with
     | .waitMsg =>
       match s.waiter with
-      | .resolved => startRun (fuelOf s) { s with waiter := .none } .top
+      | .resolved => startRun (fuelOf s) { s with waiter := .none } .pop
       | .cancelled => { s with waiter := .none, spc := .done }   -- CancelledError leaves start()
       | _ => s
     | .awaitHandler =>
